@@ -530,17 +530,17 @@ attribute [local irreducible] M.bind M.pure peek curr consumeN consume posBack d
 syntax "wp1" : tactic
 macro_rules | `(tactic| wp1) => `(tactic| first
   | apply tri_pure
-  | (apply s_eof_if <;> intros <;> try (exfalso; omega))
+  | (apply s_eof_if <;> intros <;> try (exfalso; omega -splitDisjunctions -splitNatSub))
   | (apply s_debugConsume_if _ (by decide) (by assumption) (by assumption) (by assumption) (by fin) <;> intros)
   | apply tri_bind
-  | (apply s_eof <;> intros <;> try (exfalso; omega))
+  | (apply s_eof <;> intros <;> try (exfalso; omega -splitDisjunctions -splitNatSub))
   | apply tri_getSt
   | apply tri_getEnv
   | apply tri_getFixes
   | (apply s_peek _ (by assumption) (by assumption); intros)
   | (apply s_curr (by assumption) (by assumption); intros)
-  | (apply s_consumeN _ (by assumption) (by assumption) (by assumption) <;> intros <;> try (exfalso; omega))
-  | (apply s_consume (by assumption) (by assumption) (by assumption) <;> intros <;> try (exfalso; omega))
+  | (apply s_consumeN _ (by assumption) (by assumption) (by assumption) <;> intros <;> try (exfalso; omega -splitDisjunctions -splitNatSub))
+  | (apply s_consume (by assumption) (by assumption) (by assumption) <;> intros <;> try (exfalso; omega -splitDisjunctions -splitNatSub))
   | (apply s_debugConsume _ (by decide) (by assumption) (by assumption) (by assumption) (by fin) <;> intros)
   | (apply s_ddDebug _ (by assumption) (by assumption) (by assumption) (by fin); intros)
   | (apply s_neutral incLevel (by assumption) (by assumption) (by assumption); intros)
